@@ -13,6 +13,8 @@
 //!                                                    universe); the three chunk fetches complete in the
 //!                                                    order `permute lehmer [0,1,2]`
 //!   vault <key> <reply>                              Client::fetch_and_decrypt_vault(secret key <key>)
+//!   vaultwrite <key> <reply>                         Client::get_or_create_scratchpad(secret key <key>, 7): how the vault WRITE path starts after
+//!                                                    its read got <reply>: `existing <o>.<c>.<v> t=<enc>` | `new` (a new vault, to be paid for) | `err <class>`
 //!   vaultperm <key> sp=<rec>,...                     the same split reply in every iteration order (all permutations up to 3
 //!                                                    records, else the rotations of the listed order and of its reverse);
 //!                                                    each order runs and is judged as a `vault` case of its own
@@ -629,6 +631,35 @@ fn exec(w: &World, rt: &tokio::runtime::Runtime, line: &str) -> String {
                 Some(Err(e)) => format!("err {}", vault_error_class(&e)),
             }
         }
+        ["vaultwrite", key, reply] => {
+            let Ok(kn) = key.parse::<u64>() else { return "bad-op".to_string() };
+            if kn >= N_OWNERS {
+                return "bad-op".to_string();
+            }
+            let sk = bls_sk(kn);
+            let rkey = vault_key(kn);
+            let Some(rep) = build_reply(w, reply, &rkey, kn) else { return "bad-op".to_string() };
+            let mut net = new_net();
+            let client = net.client.clone();
+            let mut rep = Some(rep);
+            let res = rt.block_on(drive(
+                client.get_or_create_scratchpad(&sk, OWNER_ENCODING),
+                &mut net.net_rx,
+                |_| 0,
+                |_| rep.take().unwrap_or(Err(GetRecordError::RecordNotFound)),
+            ));
+            match res {
+                None => "stuck".into(),
+                Some(Ok((_, true))) => "new".into(),
+                Some(Ok((pad, false))) => match pad.decrypt_data(&sk).ok().and_then(|d| String::from_utf8(d.to_vec()).ok()) {
+                    Some(s) if s.starts_with("pad-") => format!("existing {} t={}", s[4..].replace('-', "."), pad.data_encoding()),
+                    _ => "existing ?".into(),
+                },
+                Some(Err(autonomi::client::data::PutError::Network(n))) => format!("err {}", net_err_class(&n)),
+                Some(Err(autonomi::client::data::PutError::VaultBadOwner)) => "err badowner".into(),
+                Some(Err(e)) => format!("err put:{}", format!("{e:?}").split(['(', ' ', '{']).next().unwrap_or("?")),
+            }
+        }
         _ => "bad-op".to_string(),
     }));
     r.unwrap_or_else(|_| "panic".into())
@@ -776,6 +807,25 @@ fn oracle(w: &World, line: &str, out_line: &str, out: &mut Out) {
                     );
                 }
             }
+        }
+        ["vaultwrite", key, reply] => {
+            // a NEW vault (counter 0, paid for again) only when the network said there is no record at the address
+            if out_line == "new" && *reply != "nf" {
+                out.oracle_fail(
+                    "vault-write-starts-over",
+                    line,
+                    &format!("the read of the write path got `{reply}` and the write starts a NEW vault: any version stored at the address is about to be paid for again and refused by its holders"),
+                );
+            }
+            if out_line != "new" && *reply == "nf" {
+                out.oracle_fail("vault-write-creates", line, &format!("no record at the address but the write path gave `{out_line}`"));
+            }
+            // what it continues is judged as the vault read is
+            let as_read = match out_line.strip_prefix("existing ") {
+                Some(r) => format!("ok {r}"),
+                None => format!("err {}", out_line.trim_start_matches("err ")),
+            };
+            oracle(w, &format!("vault {key} {reply}"), &as_read, out);
         }
         ["vault", key, reply] => {
             let key: u64 = key.parse().unwrap_or(99);
@@ -1144,7 +1194,8 @@ fn gen_case(rng: &mut Rng) -> String {
         _ => {
             let key = rng.below(N_OWNERS);
             let honest = format!("s:P{key}.{}.v.{}", rng.range(1, 6), rng.below(3));
-            format!("vault {key} {}", gen_reply(rng, move |r| gen_pad_rec(r, key), 3, &honest))
+            let op = if rng.chance(1, 6) { "vaultwrite" } else { "vault" };
+            format!("{op} {key} {}", gen_reply(rng, move |r| gen_pad_rec(r, key), 3, &honest))
         }
     }
 }
@@ -1262,6 +1313,17 @@ const CORPUS: &[&str] = &[
     // K-k-wrongkind-tx-dictates (counted): a Transaction record with two transactions sorts first and dictates the kind
     "vault 0 sp=t:T1+2,s:P0.3.v.0",
     "vault 0 sp=t:T1,t:T2,s:P0.3.v.0,s:P0.3.v.0@own",
+    // the write path's read: a new vault only on RecordNotFound
+    "vaultwrite 0 nf",
+    "vaultwrite 0 to",
+    "vaultwrite 0 km",
+    "vaultwrite 0 nc=s:P0.3.v.0",
+    "vaultwrite 0 ok=s:P0.3.v.0",
+    "vaultwrite 0 ok=s:P1.3.v.0",
+    "vaultwrite 0 ok=s:P0.3.n.0",
+    "vaultwrite 0 ok=s:J",
+    "vaultwrite 0 sp=s:P0.3.v.0,s:P0.5.v.1",
+    "vaultwrite 0 sp=s:P0.3.n.0,s:P1.5.v.1",
     // data with repeated content: several data-map entries name one address
     "data 3 o=0.0.0 m=ok=c:m3 e0=ok=c:e3.0 e1=ok=c:e3.0 e2=ok=c:e3.0",
     "data 3 o=2.1.0 m=ok=c:m3 e0=ok=c:e3.0 e1=nf e2=nf",
